@@ -73,6 +73,13 @@ Corpus ==
                              IfElse(Spy("length", "s2", L12), <<T(<<121>>)>>, <<T(<<110>>)>>), Set("z", Spy("length", "s3", LI(4))), PrintS(Var("z")),
                              Inc(LS(NT.t1))>>)
                 @@ ("t1" :> <<Block("bb", <<For1("k", Spy("range", "s4", L12), <<PrintS(Spy("length", "s5", Var("k")))>>)>>)>>),
+    \* "is defined" on an attribute of a map (no callback inside: attributes are only read off names)
+    isdef   |-> ("main" :> <<Set("h", Hash(<<LS(NT.k)>>, <<SP("s1", LI(1))>>)),
+                             IfElse(Test(Attr(Var("h"), "k"), "defined", <<>>, FALSE), <<T(<<121>>)>>, <<T(<<110>>)>>),
+                             IfElse(Test(Attr(Var("h"), "x"), "defined", <<>>, TRUE), <<T(<<121>>)>>, <<T(<<110>>)>>),
+                             PrintS(Cond(Test(Attr(Var("nosuchvar"), "k"), "defined", <<>>, FALSE), LI(1), SP("s2", LI(2))))>>),
+    \* the spaceless tag around callbacks; a filter registered under the name spaceless is not what the tag uses
+    spaceless |-> ("main" :> <<Spaceless(<<T(<<60, 97, 62, 32>>), PrintS(SP("s1", LI(1))), T(<<32, 60, 98, 62>>), PrintS(SF("s2", LS(<<60, 99, 62, 32, 60, 100, 62>>)))>>), PrintS(SP("s3", LI(2)))>>),
     deep    |-> ("main" :> <<Block("ob", <<For1("i", L12, <<If1(SP("s1", LB(TRUE)), <<Inc(LS(NT.t1))>>)>>)>>)>>)
                 @@ ("t1" :> <<Import(LS(NT.t2), "L"), PrintS(MCall("L", "mm", <<SF("s2", Var("i"))>>))>>) @@ ("t2" :> Lib)
   ]
@@ -86,6 +93,10 @@ Unresolved ==
     nofilterapply |-> [tp |-> ("main" :> <<Apply("nofilter", <<>>, <<T(sX)>>)>>), err |-> "unknown"],
     nofilterloop2 |-> [tp |-> ("main" :> <<For("i", "", Filt("sort", Filt("nofilter", L12, <<>>), <<>>), <<PrintS(Var("i"))>>, <<T(sX)>>, TRUE)>>), err |-> "unknown"],
     nofilterloop3 |-> [tp |-> ("main" :> <<For1("i", Filt("reverse", Filt("merge", Filt("nofilter", L12, <<>>), <<Arr(<<LI(7)>>)>>), <<>>), <<PrintS(Var("i"))>>), T(sX)>>), err |-> "unknown"],
+    \* a method of a Go value that returns an error, read as an attribute (directly, and below an "is defined")
+    errmethod |-> [tp |-> ("main" :> <<T(<<97>>), PrintS(Attr(Var("eo"), "Name")), T(<<98>>)>>), err |-> "fault"],
+    errmethoddef |-> [tp |-> ("main" :> <<IfElse(Test(Attr(Attr(Var("eo"), "Name"), "k"), "defined", <<>>, FALSE), <<T(<<121>>)>>, <<T(<<110>>)>>)>>), err |-> "fault"],
+    errmethodloop |-> [tp |-> ("main" :> <<For1("i", L12, <<Set("z", Attr(Var("eo"), "Name")), T(sX)>>)>>), err |-> "fault"],
     nofn      |-> [tp |-> ("main" :> <<T(<<97>>), PrintS(Call("nofn", <<LI(1)>>))>>), err |-> "unknown"],
     nofnif    |-> [tp |-> ("main" :> <<If1(Call("nofn", <<>>), <<T(sX)>>)>>), err |-> "unknown"],
     nofnset   |-> [tp |-> ("main" :> <<Set("z", Call("nofn", <<>>)), T(sX)>>), err |-> "unknown"],
@@ -113,7 +124,7 @@ Unresolved ==
   ]
 
 AllIds == {"s1", "s2", "s3", "s4", "s5", "s6", "s7", "m1", "d1", "a1"}
-Ctx == EmptyFn
+Ctx == ("eo" :> [t |-> "errobj"])
 
 Base(name) == Render(MkW(Corpus[name], {}, {}, NoFault), "main", Ctx)
 \* every single-fault placement reachable in the fault-free run, plus one placement
@@ -153,7 +164,8 @@ CaseOf(c) ==
      tags |-> {"kind:" \o c.kind, "s:" \o c.s} \cup (IF c.kind = "fault" THEN {"spy:" \o c.id} ELSE {}) \cup {"loaders:" \o c.ly},
      entry |-> "main", ctx |-> Ctx,
      cfg |-> [faultid |-> c.id, faultnth |-> c.nth, faultload |-> c.fl, loader |-> TRUE, frontloader |-> c.ly = "front",
-              backloader |-> c.ly = "back", chainloader |-> c.ly = "chain", spynames |-> <<"range", "length">>],
+              backloader |-> c.ly = "back", chainloader |-> c.ly = "chain", spynames |-> <<"range", "length">>,
+              spyfilternames |-> <<"spaceless">>],
      runs |-> {[label |-> (IF v.debug THEN "debug" ELSE "nodebug") \o "/" \o (IF v.writer = "" THEN "render" ELSE v.writer),
                 tp |-> Sources(TpOf(c), LMin), xcalls |-> [id \in {} |-> 0], debug |-> v.debug, writer |-> v.writer] : v \in Variants},
      expect |-> [ok |-> ref.ok, out |-> ref.out, err |-> ref.err,
